@@ -180,6 +180,29 @@ def _mask_of(case):
     return np.array([int(c) for c in bits], dtype=np.int64).reshape(sh)
 
 
+LAYOUTS = ["C", "C", "C", "F", "T", "strided", "neg"]
+MDTYPES = ["int64", "int64", "uint8", "bool", "float64", "int8", "int32"]
+
+
+def _present(arr, layout, dtype=None):
+    """the same array values in another memory layout (how callers permute axes or cut sub-volumes) / dtype:
+    C-contiguous, Fortran-ordered, a transposed view of a C array, a strided slice of a larger array, a view
+    with a negative stride"""
+    a = np.array(arr, dtype=dtype) if dtype is not None else np.array(arr)
+    if layout == "F":
+        return np.asfortranarray(a)
+    if layout == "T":
+        return np.ascontiguousarray(a.T).T
+    if layout == "strided" and a.ndim:
+        big = np.zeros(tuple(2 * s + 1 for s in a.shape), dtype=a.dtype)
+        sl = tuple(slice(1, 2 * s + 1, 2) for s in a.shape)
+        big[sl] = a
+        return big[sl]
+    if layout == "neg" and a.ndim:
+        return np.ascontiguousarray(a[..., ::-1])[..., ::-1]
+    return np.ascontiguousarray(a)
+
+
 def _bits(mask):
     return "".join(str(int(v)) for v in np.asarray(mask).ravel())
 
@@ -324,7 +347,8 @@ class C15(PropertyCheck):
                 bits = _bits(m)
             else:
                 bits = rand_mask(sh)
-            cases.append({"kind": "ec", "shape": list(sh), "bits": bits})
+            cases.append({"kind": "ec", "shape": list(sh), "bits": bits, "layout": rng.choice(LAYOUTS),
+                          "mdtype": rng.choice(MDTYPES)})
         # malformed masks (refusal branch)
         for _ in range(10 if quick else 60):
             sh = rng.choice([(4,), (2, 3), (2, 2, 2)])
@@ -365,9 +389,16 @@ class C15(PropertyCheck):
                     if np.linalg.matrix_rank(np.array(A)) == d:
                         break
             b = [rng.choice([0.0, 0.0, 1.0, -3.5, 8.0]) for _ in range(N)]
+            # voxel sizes far from 1 in the units of the coordinates (millimetre voxels in metres, microns, ...):
+            # every mu_j is homogeneous of degree j, no absolute size is special
+            cs = rng.choice([1.0] * 5 + [2.0 ** -7, 2.0 ** -10, 2.0 ** -14, 2.0 ** 6])
+            if cs != 1.0:
+                A = [[v * cs for v in row] for row in A]
             cases.append({"kind": "lips", "shape": list(sh), "bits": bits, "A": A, "b": b,
                           "lam": rng.choice([0.5, 2.0, 3.0]),
-                          "perm": list(rng.sample(range(d), d))})
+                          "perm": list(rng.sample(range(d), d)),
+                          "layout": rng.choice(LAYOUTS), "clayout": rng.choice(LAYOUTS),
+                          "mdtype": rng.choice(MDTYPES)})
         # rft: Hermite / Q polynomials, quasi-polynomial arithmetic, densities
         for dim in range(-1, 9 if quick else 14):
             cases.append({"kind": "hermite", "dim": dim})
@@ -431,8 +462,12 @@ class C15(PropertyCheck):
         f = {1: "EC1d", 2: "EC2d", 3: "EC3d"}[d]
         binary = set(c["bits"]) <= {"0", "1"}
         tags = [f"ec{d}d"]
-        val = self._call(getattr(iv, f), mask.copy())
-        sov = self._call(getattr(so, f), mask.copy())
+        lay, mdt = c.get("layout", "C"), c.get("mdtype", "int64")
+        if not binary:
+            mdt = "int64"
+        tags += [f"layout={lay}", f"mask-dtype={mdt}"]
+        val = self._call(getattr(iv, f), _present(mask, lay, mdt))
+        sov = self._call(getattr(so, f), _present(mask, lay, mdt))
         if str(sov) != str(val) and not (isinstance(val, (int, float)) and isinstance(sov, (int, float)) and val == sov):
             tags.append("so-differs")
         line = f"ec{d} " + _mask_line(mask)
@@ -487,10 +522,13 @@ class C15(PropertyCheck):
         f = {1: "Lips1d", 2: "Lips2d", 3: "Lips3d"}[d]
         coords = _affine_coords(mask.shape, c["A"], c["b"])
         tags = [f"lips{d}d", f"N={coords.shape[0]}"]
-        snap = Snapshot(mask=mask, coords=coords)
-        val = self._call(getattr(iv, f), coords, mask)
+        lay, clay, mdt = c.get("layout", "C"), c.get("clayout", "C"), c.get("mdtype", "int64")
+        tags += [f"layout={lay}", f"coords-layout={clay}", f"mask-dtype={mdt}"]
+        pmask, pcoords = _present(mask, lay, mdt), _present(coords, clay)
+        snap = Snapshot(mask=pmask, coords=pcoords)
+        val = self._call(getattr(iv, f), pcoords, pmask)
         mut = snap.changed()
-        sov = self._call(getattr(so, f), coords.copy(), mask.copy())
+        sov = self._call(getattr(so, f), _present(coords, clay), _present(mask, lay, mdt))
         if isinstance(val, str) or isinstance(sov, str):
             if str(val) != str(sov):
                 tags.append("so-differs")
@@ -513,11 +551,16 @@ class C15(PropertyCheck):
                     " ".join(frs(cs[a].ravel().tolist()) for a in range(cs.shape[0])))
             lines, impl = [line], [("lips", val, dd)]
         fail = None
-        scale = max(1.0, max(abs(v) for v in val))
-        tol = 1e-9 * scale * max(1, mask.size)
+        # mu_j is homogeneous of degree j in the coordinates: the tolerance of mu_j is relative to h^j, h the
+        # largest voxel step (an absolute tolerance would hide a wrong mu_3 of small voxels, and raise false
+        # alarms on large ones)
+        h = max([abs(v) for row in c["A"] for v in row] + [2.0 ** -40])
+        hs = max(1.0, float(max(mask.shape)))
+        tols = [1e-9 * max(1, mask.size) * max((h * hs) ** j, 2.0 ** -1000) for j in range(5)]
+        tol = tols[0]
         ref = reference_mu(mask, coords)
         for j, (a, b) in enumerate(zip(val, ref + [0.0] * (len(val) - len(ref)))):
-            if abs(a - b) > tol:
+            if abs(a - b) > tols[j]:
                 fail = (f"{f}: mu{j} = {a!r} but the simplicial complex of the mask has mu{j} = {b!r} "
                         f"(mask={mask.tolist()}, A={c['A']}, b={c['b']})")
                 break
@@ -529,33 +572,36 @@ class C15(PropertyCheck):
             box = [1.0, sum(e), sum(x * y for x, y in itertools.combinations(e, 2)), float(np.prod(e)) if d == 3 else 0.0]
             box = box[:d + 1]
             for j, (a, b) in enumerate(zip(val, box)):
-                if abs(a - b) > tol:
+                if abs(a - b) > tols[j]:
                     fail = f"{f}: solid box with edge lengths {e}: mu{j} = {a!r}, expected {b!r}"
                     break
             tags.append("box")
         if fail is None:   # rescaling of coordinates: mu_j scales by lam^j
             lam = c["lam"]
             v2 = self._call(getattr(iv, f), coords * lam, mask)
-            if isinstance(v2, str) or any(abs(float(x) - lam ** j * y) > tol * max(1.0, lam ** j) for j, (x, y) in enumerate(zip(v2, val))):
+            if isinstance(v2, str) or any(abs(float(x) - lam ** j * y) > tols[j] * max(1.0, lam ** j) for j, (x, y) in enumerate(zip(v2, val))):
                 fail = f"{f}: rescaling the coordinates by {lam} gives {v2}, expected mu_j * {lam}^j of {val}"
         if fail is None:   # position / padding
             rs = np.random.RandomState(len(c["bits"]) * 31 + int(c["bits"][:24] or "0", 2))
             pad = [int(v) for v in rs.randint(0, 3, size=d)]
             big = tuple(s + p + int(q) for s, p, q in zip(mask.shape, pad, rs.randint(0, 2, size=d)))
             v3 = self._call(getattr(iv, f), _affine_coords(big, c["A"], c["b"]), _embed(mask, big, pad))
-            if isinstance(v3, str) or any(abs(float(x) - y) > tol for x, y in zip(v3, val)):
+            if isinstance(v3, str) or any(abs(float(x) - y) > tols[j] for j, (x, y) in enumerate(zip(v3, val))):
                 fail = f"{f}: placing the mask at offset {pad} in an array of shape {big} changes {val} to {v3}"
         if fail is None and d >= 2:   # axis permutation (mask and coordinate field together)
             perm = c["perm"]
-            v4 = self._call(getattr(iv, f), np.ascontiguousarray(coords.transpose([0] + [p + 1 for p in perm])),
-                            np.ascontiguousarray(mask.transpose(perm)))
-            if isinstance(v4, str) or any(abs(float(x) - y) > tol for x, y in zip(v4, val)):
+            # permuted as callers do it: transposed views (not re-packed) when the case asks for a non-C layout
+            pc, pm = coords.transpose([0] + [p + 1 for p in perm]), mask.transpose(perm)
+            if lay == "C":
+                pc, pm = np.ascontiguousarray(pc), np.ascontiguousarray(pm)
+            v4 = self._call(getattr(iv, f), pc, pm)
+            if isinstance(v4, str) or any(abs(float(x) - y) > tols[j] for j, (x, y) in enumerate(zip(v4, val))):
                 fail = f"{f}: axis permutation {perm} changes {val} to {v4}"
         if fail is None and d < 3:    # thin slab in the next dimension
             g = {1: "Lips2d", 2: "Lips3d"}[d]
             ax = len(c["bits"]) % (d + 1)
             v5 = self._call(getattr(iv, g), np.expand_dims(coords, ax + 1), np.expand_dims(mask, ax))
-            if isinstance(v5, str) or any(abs(float(x) - y) > tol for x, y in zip(list(v5), val + [0.0])):
+            if isinstance(v5, str) or any(abs(float(x) - y) > tols[j] for j, (x, y) in enumerate(zip(list(v5), val + [0.0]))):
                 fail = f"{g} of the mask embedded as a thin slab (axis {ax}) = {v5}, but {f} = {val}"
         ec = self._call(getattr(iv, f.replace("Lips", "EC")), mask)
         if fail is None and ec != val[0]:
@@ -670,7 +716,9 @@ class C15(PropertyCheck):
         got = float(got)
         fail = None
         if want is not None:
-            tol = 1e-8 * max(abs(scale), 1e-300)
+            # rounding in the quasi-polynomial evaluation (and in the gammaln differences of the closed form)
+            # grows with the degrees of freedom: relative 1e-8, loosened in proportion to max(dfn, dfd) / 10
+            tol = 1e-8 * max(1.0, max(dfn or 0, dfd or 0) / 10.0) * max(abs(scale), 1e-300)
             if not (abs(got - want) <= tol):
                 what = "the upper-tail probability" if dim == 0 else "the published closed form"
                 fail = (f"EC density of order {dim} of the {st} field (dfn={dfn}, dfd={dfd}) at x={x} is {got!r}, "
